@@ -315,10 +315,18 @@ def check(prop, tier, only=None):
     all_results = []
     unit_meta = []
     nworkers = int(os.environ.get("VERIF_JOBS", "16"))
+    build_failures = []
     for unit in spec["units"]:
         if tier == "quick" and unit.get("tier") == "thorough":
             continue
-        out, harnesses, pkgpath, dt = dump_unit(prop, unit)
+        try:
+            out, harnesses, pkgpath, dt = dump_unit(prop, unit)
+        except RuntimeError as e:
+            # the harness unit does not build against this tree (a type or an anchor it relies on changed): that is
+            # "no verdict" for this unit, never a pass; the other units still run
+            msg = [l for l in str(e).splitlines() if l.strip()]
+            build_failures.append("unit %s: harness does not build against this tree, no verdict (%s)" % (unit["name"], " / ".join(msg[:3])[:300]))
+            continue
         unit["_harnesses"] = harnesses
         unit["_pkgpath"] = pkgpath
         unit["_tier"] = tier
@@ -354,7 +362,7 @@ def check(prop, tier, only=None):
     violations_out = []
     known_printed = []
     spurious = []
-    inconclusive = []
+    inconclusive = list(build_failures)
     nreplayed = 0
     for unit, results in all_results:
         for r in results:
